@@ -106,6 +106,7 @@ func main() {
 
 	// units of this property
 	var units []*Unit
+	eng.loadLocalsBaseline(*verif)
 	var fns []*types.Func
 	for fn, fc := range eng.contracts {
 		if fc.Verify && hasProp(fc.Props, prop) {
@@ -288,6 +289,7 @@ func main() {
 			}
 		}
 		os.MkdirAll(filepath.Dir(ledgerFile), 0o755)
+		eng.saveLocalsBaseline(*verif, fns)
 		data, _ := json.MarshalIndent(ls, "", " ")
 		os.WriteFile(ledgerFile, append(data, '\n'), 0o644)
 		ledger = map[string]bool{}
@@ -349,6 +351,18 @@ func main() {
 			}
 			continue
 		}
+		staleUnit := false
+		for un := range staleUnits {
+			if strings.HasPrefix(n, un+"/") {
+				staleUnit = true
+			}
+		}
+		if staleUnit {
+			// the unit's contract could not be evaluated completely: what it produced before the
+			// engine stopped is not decisive
+			undecided = append(undecided, n+" (stale contract)")
+			continue
+		}
 		violations = append(violations, reportViolation(prop, replayDir, l, "", eng, seed))
 	}
 	// vanished obligations
@@ -363,6 +377,12 @@ func main() {
 			}
 			if stale {
 				staleObls = append(staleObls, n)
+				continue
+			}
+			// a safety obligation is named after the expression it guards; when that expression is
+			// gone (rewritten, e.g. s[a:len(s)] as s[a:]) there is nothing left to guard - the new
+			// expression carries its own obligation
+			if isSafetyName(n) {
 				continue
 			}
 			l := &logical{Name: n, Kind: "vanished", Status: "vanished"}
@@ -630,8 +650,21 @@ func (e *Engine) lemmaUnit(prop string) (ru *Unit) {
 // isStaleContractMsg recognises engine errors that mean "the contract text does not fit the source any
 // more" (as opposed to unsupported code or an internal error).
 func isStaleContractMsg(m string) bool {
-	for _, k := range []string{"unknown name ", "is not defined in the old state", "unknown field", "no field or method", "has no loop", "has no literal", "no such label"} {
+	for _, k := range []string{"unknown name ", "is not defined in the old state", "unknown field", "no field or method", "has no field", "has no method", "has no loop", "has no literal", "no such label"} {
 		if strings.Contains(m, k) {
+			return true
+		}
+	}
+	return false
+}
+
+func isSafetyName(n string) bool {
+	i := strings.LastIndex(n, "/")
+	if i < 0 {
+		return false
+	}
+	for _, k := range []string{"bounds@", "div@", "sub@", "make@", "alloc@", "nil@", "conv@", "overflow@"} {
+		if strings.HasPrefix(n[i+1:], k) {
 			return true
 		}
 	}
